@@ -105,7 +105,15 @@ def main(argv):
         else:
             mod.run(ctx)
     except Exception:
-        harness_fault = traceback.format_exc()
+        # An exception out of the property module while it drives the implementation means the harness could not
+        # relate this tree to the model (on the unchanged tree it never happens): the tie is broken, which is
+        # reported like any other broken correspondence (VIOLATION ... no-failing-input-found) unless the oracle
+        # already found a concrete failing input.  Replays keep the old behaviour (exit 2).
+        if replay:
+            harness_fault = traceback.format_exc()
+        else:
+            ctx.disagreements.append({"suite": "harness-exception", "input": None, "impl": traceback.format_exc()[-3000:],
+                                      "model": None, "note": "the property module raised while driving the implementation"})
     finally:
         if ctx.driver:
             ctx.driver.close()
